@@ -532,7 +532,7 @@ class Explorer:
                     try:
                         if ctx.solver.check() == z3.sat:
                             m = ctx.small_model(ctx.solver, ctx.solver.model())
-                            res.witnesses.append({"model": ctx.extract_model(m),
+                            res.witnesses.append({"model": ctx.extract_model(m), "guarded": bool(getattr(I, "guarded", False)),
                                                   "ensures": [o.name for o in ctx.obligations
                                                               if not o.name.startswith(("inv-init:", "inv-step:", "pre@", "side:", "no-exception"))]})
                     except Exception:
